@@ -1,13 +1,21 @@
 #!/bin/bash
-# tools/seedtest.sh <seed-dir> <property> [tier]  — apply a seeded change to /repo, run the check, ALWAYS revert.
+# tools/seedtest.sh <seed-dir> <property> [tier]
+# Runs the check of <property> against /repo + the seeded change WITHOUT touching /repo: the patch is applied
+# in a scratch worktree under /tmp/verif-mut and overlaid at build time (VERIF_MUT_TREE, see ./check).
 set -u
 d="$(cd "$1" && pwd)"; prop="$2"; tier="${3:-quick}"
-[ -z "$(git -C /repo status --short)" ] || { echo "REFUSING: /repo has uncommitted changes"; exit 3; }
-git -C /repo apply "$d/patch.diff" || { echo "patch does not apply"; exit 3; }
-trap 'git -C /repo checkout -- . ; git -C /repo clean -fdq -- pkg api lua_configuration' EXIT
-/verif/check "$prop" "$tier" > "/verif/.cache/seedtest-$(basename $d)-$prop.log" 2>&1
+b=$(basename "$d")
+tree=/tmp/verif-mut/$b-$prop
+git -C /repo worktree remove --force "$tree" >/dev/null 2>&1; rm -rf "$tree"
+mkdir -p /tmp/verif-mut
+git -C /repo worktree add -q --detach "$tree" HEAD || { echo "cannot create worktree"; exit 3; }
+cleanup() { git -C /repo worktree remove --force "$tree" >/dev/null 2>&1; rm -rf "/verif/.cache/bin-tmp_verif-mut_$b-$prop" "/verif/.cache/overlay-tmp_verif-mut_$b-$prop"; }
+trap cleanup EXIT
+git -C "$tree" apply "$d/patch.diff" || { echo "seed=$b property=$prop patch does not apply"; exit 3; }
+log="/verif/.cache/seedtest-$b-$prop.log"
+VERIF_MUT_TREE="$tree" /verif/check "$prop" "$tier" > "$log" 2>&1
 rc=$?
-grep -E "^(VIOLATION|KNOWN-FINDING|HARNESS-ERROR)" "/verif/.cache/seedtest-$(basename $d)-$prop.log" | head -5
-tail -1 "/verif/.cache/seedtest-$(basename $d)-$prop.log"
-echo "seed=$(basename $d) property=$prop tier=$tier exit=$rc"
+grep -E "^(VIOLATION|HARNESS-ERROR)" "$log" | head -4
+tail -1 "$log" | cut -c1-220
+echo "seed=$b property=$prop tier=$tier exit=$rc"
 exit 0
